@@ -170,6 +170,7 @@ type c17Node struct {
 	dead           bool
 	lastRevertOnly bool
 	sinceScan      uint64 // lowest height processed since the last reset (0 = from genesis)
+	everReset      bool   // ResetChainState was called in this case (findings of the rescan family get their own sigs)
 	hmax           uint64 // highest height processed since the last reset
 
 	nBatches, nReorgBatches, nRevised, nFormed, maxDepth int
@@ -968,7 +969,11 @@ func (n *c17Node) poolRenewal(p *c17Renewal, basis types.ChainIndex, txn types.V
 	if _, err := n.cm.AddV2PoolTransactions(basis, []types.V2Transaction{txn}); err != nil {
 		n.w.ReleaseInputs(nil, []types.V2Transaction{txn})
 		if strings.Contains(err.Error(), "not present in the accumulator") {
-			n.em.Monitor("renewal-built-from-stored-element-refused-by-pool", fmt.Sprintf("contract %d basis %v (%s): %v", p.old.num, basis, when, err))
+			sig := "renewal-built-from-stored-element-refused-by-pool"
+			if n.everReset {
+				sig += "-after-rescan" // a history with ResetChainState + rescan: the rescan family of findings
+			}
+			n.em.Monitor(sig, fmt.Sprintf("contract %d basis %v (%s): %v", p.old.num, basis, when, err))
 		} else {
 			n.em.Count("renew:pool-refused-other(" + when + ")")
 		}
@@ -1197,6 +1202,7 @@ func (n *c17Node) reset() {
 	n.sinceScan = 0
 	n.hmax = 0
 	n.rescanning = true
+	n.everReset = true
 }
 
 func c17Bin(n int) string {
